@@ -649,6 +649,11 @@ BODIES = [
     ("PFC_searchPrefix", "StringDictionaryPFC.cpp", "StringDictionaryPFC::searchPrefix", 0),
     ("PFC_searchDistinctPrefix", "StringDictionaryPFC.cpp", "StringDictionaryPFC::searchDistinctPrefix", 0),
     ("longestCommonPrefix", "utils/Utils.h", "longestCommonPrefix", 0),
+    ("PFC_extractPrefix", "StringDictionaryPFC.cpp", "StringDictionaryPFC::extractPrefix", 0),
+    ("PFC_extractTable", "StringDictionaryPFC.cpp", "StringDictionaryPFC::extractTable", 0),
+    ("PFCIter_ctor", "iterators/IteratorDictStringPFC.h", "IteratorDictStringPFC", 0),
+    ("PFCIter_next", "iterators/IteratorDictStringPFC.h", "next", 0),
+    ("PFCIter_decodeNext", "iterators/IteratorDictStringPFC.h", "decodeNext", 0),
     ("PFC_save", "StringDictionaryPFC.cpp", "StringDictionaryPFC::save", 0),
     ("PFC_load", "StringDictionaryPFC.cpp", "StringDictionaryPFC::load", 0),
     ("RG_rank1", "libcds/src/bitsequence/BitSequenceRG.cpp", "BitSequenceRG::rank1", 0),
